@@ -125,6 +125,8 @@ structure NumIn where
   precision : Nat
   /-- `strconv.ParseFloat(value) < 0` -/
   neg : Bool
+  /-- `strconv.ParseFloat(value) == 0` -/
+  zero : Bool
   /-- `FormatFloat(|number|,'f',-1,64)` -/
   absShort : Str
   /-- `TrimLeft(FormatFloat(decimal*100^(percent>0),'f',-1,64),"-")` -/
@@ -269,18 +271,29 @@ def padLeft (w : Nat) (s : Str) : Str :=
 
 def percents (n : Nat) : Str := List.replicate n '%'
 
+/-- increment a decimal digit string: trailing 9s become 0, the next digit is bumped, or a 1 is prepended -/
+def incRev : Str → Str
+  | [] => ['1']
+  | c :: cs => if c = '9' then '0' :: incRev cs else Char.ofNat (c.toNat + 1) :: cs
+
+def incDigits (s : Str) : Str := (incRev s.reverse).reverse
+
 def printBigNumber (c : Conf) (n : NumIn) (fracLen : Nat) : Str :=
   let result := n.bigShort (c.percent > 0)
-  let result := if c.useCommaSep then printCommaSep result else result
   let result :=
     if fracLen > 0 then
       match splitC '.' result with
       | [p, q] =>
         if q.length < fracLen then result ++ zeros (fracLen - q.length)
-        else if q.length > fracLen then p ++ '.' :: q.take fracLen
+        else if q.length > fracLen then
+          -- round half away from zero on the decimal digits (`parts[1][fracLen] >= '5'`)
+          let digits := p ++ q.take fracLen
+          let digits := if (q[fracLen]?).any (fun ch => ch.toNat ≥ 53) then incDigits digits else digits
+          digits.take (digits.length - fracLen) ++ '.' :: digits.drop (digits.length - fracLen)
         else result
       | _ => result ++ '.' :: zeros fracLen
     else result
+  let result := if c.useCommaSep then printCommaSep result else result
   if c.percent > 0 then result ++ ['%'] else result
 
 def numberHandler (items : List Tok) (value : Str) (usePositive : Bool) (n : NumIn) : Out :=
@@ -584,9 +597,11 @@ def Out.map (f : Str → Str) : Out → Out
   | .ok s => .ok (f s)
   | o => o
 
-/-- getValueSectionType: (section type, usePositive); `numeric` = cell type is number/date and isNumeric(value) -/
-def valueSectionType (secs : List Sec) (numeric : Bool) (neg : Bool) : String × Bool :=
+/-- getValueSectionType: (section type, usePositive); `numeric` = cell type is number/date and
+isNumeric(value); a zero goes to the Zero-typed section when there is one -/
+def valueSectionType (secs : List Sec) (numeric : Bool) (neg : Bool) (zero : Bool) : String × Bool :=
   if !numeric then ("Text", false)
+  else if zero && secs.any (fun s => s.ty = "Zero") then ("Zero", false)
   else if !neg then ("Positive", false)
   else if secs.any (fun s => s.ty = "Negative") then ("Negative", false)
   else ("Positive", true)
@@ -597,7 +612,7 @@ def selectSection (secs : List Sec) (ty : String) : Option (Nat × Sec) :=
 /-- format -/
 def format (secs : List Sec) (value : Str) (cellNumeric : Bool) (n : NumIn) (d : DateIn) : Out :=
   let numeric := cellNumeric && n.isNum
-  let (vst, usePositive) := valueSectionType secs numeric n.neg
+  let (vst, usePositive) := valueSectionType secs numeric n.neg n.zero
   match selectSection secs vst with
   | none => .ok value
   | some (_, sec) =>
@@ -710,6 +725,7 @@ def numIn (x : Dec) : NumIn where
   isNum := true
   precision := sigDigits (absPlain x)
   neg := x.neg && x.m ≠ 0
+  zero := x.m = 0
   absShort := absPlain x
   bigShort := fun pct => absPlain { x with e := x.e + (if pct then 2 else 0) }
   fixed := fixed x
